@@ -72,6 +72,45 @@ def calibrate(ctx):
                 ctx.extra_cov["selftest"]["refactorings_run"], len(bad)))
 
 
+def _isolate_rules():
+    """one rule that cannot be evaluated (vanished anchor, unsupported construct, a bug in the rule) must not silence the others:
+    every public rule function (first parameter `ctx`) reports its own failure as UNKNOWN and returns None"""
+    import functools
+    import inspect
+    import pkgutil
+    import rules
+    from sa.report import Ctx
+    for m in pkgutil.iter_modules(rules.__path__):
+        mod = importlib.import_module("rules." + m.name)
+        for name, fn in list(vars(mod).items()):
+            if not inspect.isfunction(fn) or fn.__module__ != mod.__name__ or name.startswith("_") or getattr(fn, "_isolated", False):
+                continue
+            params = list(inspect.signature(fn).parameters)
+            if not params or params[0] != "ctx":
+                continue
+
+            def wrap(fn):
+                @functools.wraps(fn)
+                def inner(ctx, *a, **k):
+                    if not isinstance(ctx, Ctx) or getattr(ctx, "_depth", 0) > 0:
+                        return fn(ctx, *a, **k)      # nested calls between rules propagate to the outermost one
+                    ctx._depth = 1
+                    try:
+                        return fn(ctx, *a, **k)
+                    except AnalysisError as e:
+                        ctx.unknown(k.get("rule") or inspect.signature(fn).parameters.get("rule", inspect.Parameter("r", 1, default="engine")).default or "engine",
+                                    "%s: %s" % (fn.__name__, e))
+                    except Exception as e:   # a bug in one rule is an analysis error of that rule, never a violation
+                        traceback.print_exc()
+                        ctx.unknown("engine", "internal error in %s: %s: %s" % (fn.__name__, type(e).__name__, e))
+                    finally:
+                        ctx._depth = 0
+                    return None
+                inner._isolated = True
+                return inner
+            setattr(mod, name, wrap(fn))
+
+
 def main():
     if len(sys.argv) > 1 and sys.argv[1] == "--selfcheck":
         return selfcheck()
@@ -97,6 +136,7 @@ def main():
     except ModuleNotFoundError:
         print("ANALYSIS-ERROR property=%s no check implemented" % pid)
         return 2
+    _isolate_rules()
     try:
         expl = mod.run(ctx)
         if a.tier == "thorough" and hasattr(mod, "thorough"):
